@@ -33,10 +33,7 @@ func genVariant(r *simrt.Rand, serialOnly bool) simapi.Variant {
 		sc.Strategy, sc.PrioRule = simrt.StratPrio, simrt.PrioReverse
 	case 3, 4, 5, 6, 7, 8:
 		sc.Strategy = simrt.StratPrio
-		sc.PrioRule = simrt.PrioRandom
-		if r.Intn(2) == 0 {
-			sc.PrioRule = simrt.PrioRandomMainLo
-		}
+		sc.PrioRule = []int{simrt.PrioRandom, simrt.PrioRandomMainLo, simrt.PrioRandomMainHi, simrt.PrioRandomMainHi}[r.Intn(4)]
 		sc.PrioSeed = r.Uint64()
 		d := 1 + r.Intn(3) // number of change points
 		if r.Intn(6) == 0 {
